@@ -161,6 +161,8 @@ class ReopenEngine(Engine):
         # variant: object information validated against the sources (entries follow moved files,
         # entries of vanished files are dropped at open); information then comes from real analysis only
         swarm["validate_objectdb"] = rng.random() < 0.2
+        if swarm["validate_objectdb"]:
+            swarm["removals"] = True
         swarm["oi_w"] = rng.choice([0, 2, 4])
         if swarm["program"]:
             init = gen.gen_program(rng, swarm)
